@@ -355,7 +355,7 @@ func Coordinate(opt Options) int {
 		if opt.Tier == "thorough" {
 			budget = 1500
 		} else {
-			budget = 100
+			budget = 240
 		}
 	}
 	deadline := start.Add(time.Duration(budget) * time.Second)
